@@ -68,13 +68,22 @@ MultiCases ==
   \cup { Case([NoUpd EXCEPT !.set = <<[p |-> P("c"), v |-> Val(":v")], [p |-> P("d"), v |-> Val(":w")]>>], it, <<>>, V2(SAB, Num(1))) : it \in ItemsA }
   \cup { Case([NoUpd EXCEPT !.set = <<[p |-> P("c"), v |-> Val(":v")]>>, !.add = <<[p |-> P("kn"), v |-> Val(":w")]>>, !.remove = <<P("ks")>>], Keep, <<>>, V2(SAB, Num(1))) }
   \cup { Case([NoUpd EXCEPT !.set = <<[p |-> P("km"), v |-> Val(":v")], [p |-> <<N_("km"), N_("q")>>, v |-> Val(":w")]>>], Keep, <<>>, V2(SAB, Num(1))) }   \* overlapping targets
+\* one placeholder used by two actions: the operand must not be consumed or shared between them
+SharedOperandCases ==
+  LET it == Keep @@ [a |-> Mk("SS", <<<<120>>>>), b |-> Mk("SS", <<<<121>>>>), c |-> Mk("SS", <<<<120>>, <<122>>>>), n1 |-> Num(1), n2 |-> Num(2)]
+      big == Mk("SS", <<<<112>>, <<113>>, <<114>>>>)
+  IN { Case([NoUpd EXCEPT !.add = <<[p |-> P("a"), v |-> Val(":v")], [p |-> P("b"), v |-> Val(":v")]>>], it, <<>>, V1(big)),
+       Case([NoUpd EXCEPT !.add = <<[p |-> P("a"), v |-> Val(":v")]>>, !.del = <<[p |-> P("c"), v |-> Val(":v")]>>], it, <<>>, V1(Mk("SS", <<<<120>>, <<112>>, <<113>>>>))),
+       Case([NoUpd EXCEPT !.add = <<[p |-> P("n1"), v |-> Val(":v")], [p |-> P("n2"), v |-> Val(":v")]>>], it, <<>>, V1(Num(5))),
+       Case([NoUpd EXCEPT !.set = <<[p |-> P("x"), v |-> Val(":v")], [p |-> P("y"), v |-> Val(":v")]>>, !.add = <<[p |-> P("a"), v |-> Val(":v")]>>], it, <<>>, V1(big)),
+       Case([NoUpd EXCEPT !.set = <<[p |-> P("x"), v |-> [k |-> "lapp", l |-> Val(":v"), r |-> Val(":v")]], [p |-> P("y"), v |-> Val(":v")]>>], it, <<>>, V1(LV)) }
 \* right-hand sides read the PRE-update item
 PreStateCases ==
      { Case([NoUpd EXCEPT !.set = <<[p |-> P("a"), v |-> Path("b")], [p |-> P("b"), v |-> Path("a")]>>], it, <<>>, <<>>) : it \in { x \in WithB : "a" \in DOMAIN x } }
   \cup { Case([NoUpd EXCEPT !.set = <<[p |-> P("kn"), v |-> [k |-> "plus", l |-> Path("kn"), r |-> Val(":v")]], [p |-> P("c"), v |-> Path("kn")]>>], Keep, <<>>, V1(Num(1))) }
   \cup { Case([NoUpd EXCEPT !.set = <<[p |-> P("c"), v |-> Path("ks")]>>, !.remove = <<P("ks")>>], Keep, <<>>, <<>>) }
 
-Cases == SetCases \cup NestedCases \cup RemoveCases \cup AddCases \cup DeleteCases \cup MultiCases \cup PreStateCases
+Cases == SharedOperandCases \cup SetCases \cup NestedCases \cup RemoveCases \cup AddCases \cup DeleteCases \cup MultiCases \cup PreStateCases
 ASSUME \A c \in Cases : PrintT(ToJson(c))
 ASSUME PrintT(ToJson([kind |-> "count", n |-> Cardinality(Cases)]))
 VARIABLE dummy
